@@ -126,6 +126,11 @@ fn main() {
         eprintln!("unknown property {}", prop);
         std::process::exit(2);
     };
+    if let Some(o) = &out {
+        let p = format!("{}.found.jsonl", o);
+        let _ = std::fs::remove_file(&p);
+        let _ = anyvec_pbt::driver::VIOLATION_LOG.set(p);
+    }
     let configs = all_configs();
     let t0 = Instant::now();
     let mut tasks: Vec<Task> = Vec::new();
